@@ -68,20 +68,35 @@ type c12file struct {
 	entries []c12entry
 }
 
-// c12merged: the newest version (highest sequence number) of every key over all tables
-func c12merged(fs []*c12file) map[string]c12entry {
-	m := map[string]c12entry{}
-	for _, f := range fs {
+// c12live: what a reader of the tables alone would see: tables in reading order (level 0 newest
+// file first, then the deeper levels), the first version found of a key decides, a delete marker
+// means absent. (Sequence numbers cannot be used: compaction outputs carry 0.)
+func c12live(fs []*c12file) map[string][]byte {
+	ord := append([]*c12file(nil), fs...)
+	sort.SliceStable(ord, func(i, j int) bool {
+		if ord[i].level != ord[j].level {
+			return ord[i].level < ord[j].level
+		}
+		return ord[i].num > ord[j].num
+	})
+	seen := map[string]bool{}
+	m := map[string][]byte{}
+	for _, f := range ord {
 		for _, e := range f.entries {
-			if cur, ok := m[string(e.key)]; !ok || e.seq > cur.seq {
-				m[string(e.key)] = e
+			k := string(e.key)
+			if seen[k] {
+				continue
+			}
+			seen[k] = true
+			if !e.tomb {
+				m[k] = e.val
 			}
 		}
 	}
 	return m
 }
 
-func c12mergedDiff(a, b map[string]c12entry) string {
+func c12liveDiff(a, b map[string][]byte) string {
 	var ks []string
 	for k := range a {
 		ks = append(ks, k)
@@ -97,11 +112,11 @@ func c12mergedDiff(a, b map[string]c12entry) string {
 		y, oky := b[k]
 		switch {
 		case okx && !oky:
-			return fmt.Sprintf("key %s (sequence %d) is in no table any more", render([]byte(k)), x.seq)
+			return fmt.Sprintf("key %s (value %s) is in no table any more", render([]byte(k)), render(x))
 		case !okx && oky:
-			return fmt.Sprintf("key %s appeared (sequence %d)", render([]byte(k)), y.seq)
-		case x.seq != y.seq || x.tomb != y.tomb || !bytes.Equal(x.val, y.val):
-			return fmt.Sprintf("newest version of key %s went from sequence %d to %d", render([]byte(k)), x.seq, y.seq)
+			return fmt.Sprintf("key %s came back with value %s", render([]byte(k)), render(y))
+		case !bytes.Equal(x, y):
+			return fmt.Sprintf("key %s went from value %s to %s", render([]byte(k)), render(x), render(y))
 		}
 	}
 	return ""
@@ -1014,8 +1029,9 @@ loop:
 		case "autofail":
 			// the same fault inside the BACKGROUND worker (1 s interval): its first cycle fails at
 			// the second output table, the worker's clean-up of obsolete files runs after it, further
-			// cycles cannot even open the tables; after 2.6 s files can be opened again. No table that
-			// existed before may be gone (nothing could be compacted successfully meanwhile).
+			// cycles cannot even open the tables; after 2.6 s files can be opened again. A table that
+			// existed before may be gone only if the tables that remain read the same (a cycle with a
+			// single output table finishes before the fault matters).
 			if !r.reopen(false, 1) {
 				aborted = true
 				break loop
@@ -1040,10 +1056,16 @@ loop:
 			out(fmt.Sprintf("NOTE autofail fault_injected=%v", lowered.Load()))
 			if lowered.Load() {
 				r.nFaultErr++
-				post := c12fileNames(r.dump(false))
+				// a table may only go when what it held is readable from the tables that remain (a
+				// cycle whose single output was complete before the fault struck succeeds, and removes
+				// its inputs rightly)
+				postFiles := r.dump(false)
+				post := c12fileNames(postFiles)
 				for _, f := range pre {
 					if post[f.name] == nil {
-						r.fail("", fmt.Sprintf("the background compaction worker removed the table %s (%d entries) although its compaction cycle failed", f.name, len(f.entries)))
+						if d := c12liveDiff(c12live(pre), c12live(postFiles)); d != "" {
+							r.fail("", fmt.Sprintf("the background compaction worker removed the table %s (%d entries) although its compaction cycle failed: %s", f.name, len(f.entries), d))
+						}
 						break
 					}
 				}
